@@ -200,6 +200,13 @@ pub fn compare_compiled_with_interp(case: &ExecCase, m: &ModelRun, interp: &EngR
     };
     match &comp.outcome {
         Outcome::Ok(got) => {
+            if let Some(h) = comp.hlog.iter().find(|h| h.align != 0) {
+                // C08: helpers must be entered with the stack aligned as the C ABI requires
+                return Verdict::fail(
+                    format!("{eng}:stack-misaligned-at-helper-call"),
+                    format!("{eng}: a helper was entered with (rsp+8)%16 = {} (per call: {:?})\n{}", h.align, comp.hlog.iter().map(|h| h.align).collect::<Vec<_>>(), describe(case)),
+                );
+            }
             if *got != want {
                 return i2(format!("{eng} returned {got:#x}, interpreter returned {want:#x}"));
             }
